@@ -172,4 +172,19 @@ def packSeq (index : List Label) (ty : List (String × String)) (rows : List (Ro
   let c ← NArr.init { ty := ty, chunks := [PStruct.ofScalars ty (rows.map (boxScalar ty))] }
   pure { index := index, col := c }
 
+
+/-- what `to_lists` hands to `pack_lists` PHYSICALLY (accessor.py:70-90): for every declared field the
+    child list arrays of the chunks as they are (`struct_array.field(j)`: raw windows, struct validity
+    not applied), one chunked array per field -/
+def fieldChunks (c : PCol α) : List (String × String × List (PList α)) :=
+  (List.range c.ty.length).map fun j =>
+    ((c.ty.getD j ("", "")).1, (c.ty.getD j ("", "")).2,
+      c.chunks.map fun s => (s.kids.getD j ⟨"", "", ⟨[0], [], []⟩⟩).list)
+
+/-- `pack_lists(series.nest.to_lists())` -/
+def NSeries.relist (s : NSeries α) : R (NSeries α) := packLists s.index (fieldChunks s.col) true
+
+/-- `pack_seq(list(series), index=series.index, dtype=series.dtype)` -/
+def NSeries.repackElements (s : NSeries α) : R (NSeries α) := packSeq s.index s.col.ty (NArr.iter s.col)
+
 end NP
